@@ -252,7 +252,21 @@ def check_law_single_points(mon, rng, make, label):
     n = 4000
     np.random.seed(int(rng.integers(2**31)))
     x1 = np.asarray(x, float).reshape(-1)
-    Y = np.array([np.asarray(prob.evaluate(x1.copy())).reshape(-1) for _ in range(n)])
+    from vopy.utils import generate_sobol_samples
+
+    interleave = bool(rng.random() < 0.5)  # an unrelated library call between two evaluations must not disturb the noise law
+    Y = []
+    for _ in range(n):
+        Y.append(np.asarray(prob.evaluate(x1.copy())).reshape(-1))
+        if interleave:
+            generate_sobol_samples(2, 2)
+    Y = np.array(Y)
+    if interleave:
+        mon.count("law_interleaved_with_other_calls")
+        if len(np.unique(np.round(Y[:, 0], 12))) < 0.99 * n:
+            mon.violation("noise:repeating-draws", f"{label}: only {len(np.unique(np.round(Y[:, 0], 12)))} distinct noise values in {n} evaluations "
+                          "interleaved with generate_sobol_samples calls", {"label": label})
+            return
     mon.count("law_single_point_events")
     mon.event(case_hash("law1", Sigma, label), True, f"law/{label}/single-point")
     if Y.shape != (n, m):
